@@ -169,6 +169,8 @@ func rulesC09(c *Ctx) {
 	c.Floor("C09.REPORT", 20)
 	ruleC09Fanout(c, cg, sum)
 	ruleC09TwoWay(c, impls)
+	ruleC09Phases(c, cg, impls)
+	ruleReseek(c, "C09.RESEEK", c.prodFuncs("boltz"))
 }
 
 func reportKey(fn string, in ssa.Instruction) string { return fn + ": " + describeInstr(in) }
@@ -430,4 +432,110 @@ func ruleC09TwoWay(c *Ctx, impls []checkIntegrityImpl) {
 	}
 	c.Floor("C09.TWOWAY", 3)
 	_ = strings.TrimSpace
+}
+
+// ---- PHASES: in an index checker, every removal happens before any (re)creation ---------------
+
+func ruleC09Phases(c *Ctx, cg *CG, impls []checkIntegrityImpl) {
+	p := c.P
+	var dels, puts []*types.Func
+	for _, m := range []string{"Delete", "DeleteBucket"} {
+		dels = append(dels, p.ExtMethod(bboltPath, "Bucket", m))
+	}
+	dels = append(dels, p.ExtMethod(bboltPath, "Cursor", "Delete"), p.ExtMethod(bboltPath, "Tx", "DeleteBucket"))
+	for _, m := range []string{"Put", "CreateBucket", "CreateBucketIfNotExists"} {
+		puts = append(puts, p.ExtMethod(bboltPath, "Bucket", m))
+	}
+	puts = append(puts, p.ExtMethod(bboltPath, "Tx", "CreateBucket"), p.ExtMethod(bboltPath, "Tx", "CreateBucketIfNotExists"))
+	sumDel := cg.Summarize(func(in ssa.Instruction) bool { return isCallTo(in, dels...) })
+	sumPut := cg.Summarize(func(in ssa.Instruction) bool { return isCallTo(in, puts...) })
+	for _, ci := range impls {
+		recv := namedOf(recvType(ci.fn.Object().(*types.Func)))
+		if recv == nil {
+			continue
+		}
+		switch recv.Obj().Name() {
+		case "uniqueIndex", "setIndex", "fkIndex":
+		default:
+			continue
+		}
+		name := FnName(ci.fn)
+		var putSites, delSites []ssa.CallInstruction
+		for _, call := range callsIn(ci.fn) {
+			if isCallTo(call, puts...) {
+				putSites = append(putSites, call)
+				continue
+			}
+			if isCallTo(call, dels...) {
+				delSites = append(delSites, call)
+				continue
+			}
+			if may, _ := sumPut.CallMay(call.Common()); may {
+				putSites = append(putSites, call)
+				continue
+			}
+			if may, _ := sumDel.CallMay(call.Common()); may {
+				delSites = append(delSites, call)
+			}
+		}
+		bad := ""
+		for _, ps := range putSites {
+			ri := reachWithoutFrom(ci.fn, ps, func(ssa.Instruction) bool { return false })
+			for _, d := range delSites {
+				if ri.entryReach[d.Block()] || (d.Block() == ps.Block() && instrIndex(d) > instrIndex(ps)) {
+					bad = fmt.Sprintf("%s at %s can still run after %s at %s", describeInstr(d), p.Pos(d.Pos()), describeInstr(ps), p.Pos(ps.Pos()))
+				}
+			}
+		}
+		c.Check(bad == "", "C09.PHASES", name, p.Pos(ci.fn.Pos()), fmt.Sprintf("all %d removal site(s) complete before any of the %d (re)creation site(s): a repaired entry cannot be deleted again in the same run", len(delSites), len(putSites)),
+			"a removal can run after entries were (re)created in the same run ("+bad+"): fix mode may delete what it has just repaired and the immediate re-check is not clean")
+	}
+	c.Floor("C09.PHASES", 3)
+}
+
+// ruleReseek: inside a loop that advances cursor X with X.Next(), calling X.Seek(...) re-positions
+// the cursor so that the following Next() skips an element.
+func ruleReseek(c *Ctx, rule string, fns []*ssa.Function) {
+	p := c.P
+	n := 0
+	for _, fn := range fns {
+		loops := loopsOf(fn)
+		if len(loops) == 0 {
+			continue
+		}
+		for _, l := range loops {
+			var nexts, seeks []ssa.CallInstruction
+			for b := range l.Blocks {
+				for _, in := range b.Instrs {
+					call, ok := in.(ssa.CallInstruction)
+					if !ok || !call.Common().IsInvoke() {
+						continue
+					}
+					switch call.Common().Method.Name() {
+					case "Next":
+						nexts = append(nexts, call)
+					case "Seek":
+						seeks = append(seeks, call)
+					}
+				}
+			}
+			if len(nexts) == 0 {
+				continue
+			}
+			n++
+			bad := false
+			for _, s := range seeks {
+				for _, nx := range nexts {
+					if s.Common().Value == nx.Common().Value {
+						bad = true
+						c.Bad(rule, FnName(fn)+": cursor "+describeValue(s.Common().Value), p.Pos(s.Pos()), "the loop advances this cursor with Next() but its body also re-seeks it: after the Seek the Next() steps over the element the cursor was placed on (an entry is skipped)")
+					}
+				}
+			}
+			if !bad {
+				c.Analysed(FnName(fn))
+			}
+		}
+	}
+	c.OK(rule, "boltz cursor loops", "-", fmt.Sprintf("%d loop(s) advancing a cursor with Next() examined", n))
 }
